@@ -81,10 +81,13 @@ theorem sinv_step {s s' : St} {tr : Tr} (hi : Inv s) (h : SInv s) (hs : step? s 
         have hclk := h.clk
         simp only [tpOK, hg.2.2.1] at hok
         refine sinv_tpset h htp rfl rfl rfl rfl rfl ?_ (fun r hr hh => hh) (fun e => by rw [hg.2.2.1] at e; cases e)
+        obtain ⟨a1, a2, a3, a4, a5, a6, a7, a8, a9, a10, a11, a12⟩ := hok
         simp only [tpOK, hg.2.2.1]
         by_cases hfb : tp.firstBegin = 0
-        · simp only [hfb, if_true]; omega
-        · simp only [hfb, if_false]; omega
+        · rw [if_pos hfb]
+          exact ⟨by omega, by omega, by omega, by omega, by omega, by omega, a7, by omega, by omega, by omega, by omega, a12⟩
+        · rw [if_neg hfb]
+          exact ⟨by omega, by omega, by omega, by omega, by omega, by omega, a7, by omega, by omega, by omega, by omega, a12⟩
       · cases hs
     · cases hs
   | taskEnd t =>
@@ -101,8 +104,9 @@ theorem sinv_step {s s' : St} {tr : Tr} (hi : Inv s) (h : SInv s) (hs : step? s 
         have hclk := h.clk
         simp only [tpOK, hst] at hok
         refine sinv_tpset h htp rfl rfl rfl rfl rfl ?_ (fun r hr hh => hh) (fun e => by rw [hst] at e; cases e)
+        obtain ⟨a1, a2, a3, a4, a5, a6, a7, a8, a9, a10, a11, a12⟩ := hok
         simp only [tpOK, hst]
-        omega
+        exact ⟨by omega, by omega, by omega, by omega, by omega, by omega, a7, by omega, by omega, by omega, by omega, a12⟩
       · cases hs
     · cases hs
   | detect t p =>
@@ -116,8 +120,10 @@ theorem sinv_step {s s' : St} {tr : Tr} (hi : Inv s) (h : SInv s) (hs : step? s 
         have hclk := h.clk
         simp only [tpOK, hst] at hok
         refine sinv_tpset h htp rfl rfl rfl rfl rfl ?_ (fun r hr hh => hh) (fun e => by rw [hst] at e; cases e)
+        obtain ⟨a1, a2, a3, a4, a5, a6, a7, a8, a9, a10, a11, b1, b2, b3, b4, b5⟩ := hok
         simp only [tpOK]
-        omega
+        exact ⟨by omega, by omega, by omega, by omega, by omega, by omega, a7, by omega, by omega, by omega, by omega,
+               b1, by omega, by omega, by omega, by omega, by omega, by omega, by omega⟩
       · cases hs
     · cases hs
   | dec t =>
@@ -266,8 +272,8 @@ theorem sinv_step {s s' : St} {tr : Tr} (hi : Inv s) (h : SInv s) (hs : step? s 
         have hd : tp.early = true → False := fun e => by rw [hok.2.2.2.2.2.2.2.2.2.2.2.1] at e; cases e
         refine sinv_tpset (tp := tp) h htp rfl rfl rfl rfl rfl ?_ (fun r hr hh => hh) (fun e => by rw [hg.1] at e; cases e)
         simp only [tpOK, hg.1]
-        refine ⟨by omega, by omega, by omega, by omega, by omega, by omega, fun e => (hd e).elim, by omega, by omega, by omega, by omega, ?_⟩
-        omega
+        exact ⟨by omega, by omega, by omega, by omega, by omega, by omega, fun e => (hd e).elim, by omega, by omega, by omega, by omega,
+               hok.2.2.2.2.2.2.2.2.2.2.2⟩
       · cases hs
     · cases hs
 
